@@ -125,6 +125,32 @@ pub fn programs() -> Vec<Prog> {
         let src = format!("struct MatHost {{ {} }};\n@group(0) @binding(0) var<uniform> mat_host: MatHost;\nstruct VecVertex {{ @location(0) a: vec2<f32>, @location(1) b: vec3<f32>, @location(2) c: vec4<f32>, @location(3) d: vec3<u32> }};\n@vertex fn vs_main(v: VecVertex) -> @builtin(position) vec4<f32> {{\n    return vec4<f32>(mat_host.m0.x);\n}}\n@fragment fn fs_main() -> @location(0) vec4<f32> {{\n    return vec4<f32>(1.0);\n}}\n@compute @workgroup_size(2, 3) fn cs_main() {{\n}}\n", members.join(", "));
         out.push(Prog { key: "roles=matrix-members".into(), src, structs: vec![RoleStruct { name: "MatHost", host: true, rts: false }, RoleStruct { name: "VecVertex", host: false, rts: false }] });
     }
+    // host structs by kind of member (atomics directly / nested / in arrays / under a runtime array, 64-bit floats,
+    // arrays of structs, bool in a workgroup struct): the truth table does not depend on what the members are
+    {
+        let kinds: [(&'static str, &'static str, &'static str, bool); 8] = [
+            ("atomic-direct", "struct KHost { hits: atomic<u32>, misses: atomic<i32>, scale: f32 };\n", "var<storage, read_write> k_host: KHost;", false),
+            ("atomic-nested", "struct KInner { n: atomic<u32> };\nstruct KHost { head: vec4<f32>, inner: KInner };\n", "var<storage, read_write> k_host: KHost;", false),
+            ("atomic-array", "struct KHost { slots: array<atomic<u32>, 4>, tail: u32 };\n", "var<storage, read_write> k_host: KHost;", false),
+            ("atomic-runtime", "struct KInner { n: atomic<i32>, w: f32 };\nstruct KHost { count: u32, items: array<KInner> };\n", "var<storage, read_write> k_host: KHost;", true),
+            ("atomic-workgroup", "struct KHost { n: atomic<u32>, v: vec2<f32> };\n", "WORKGROUP", false),
+            ("f64-members", "struct KHost { a: f64, b: vec2<f64>, c: f32 };\n", "var<storage, read> k_host: KHost;", false),
+            ("array-of-structs", "struct KInner { p: vec3<f32>, q: f32 };\nstruct KHost { items: array<KInner, 3>, n: u32 };\n", "var<uniform> k_host: KHost;", false),
+            ("nested-three-deep", "struct KLeaf { x: vec4<f32> };\nstruct KInner { leaf: KLeaf, y: vec4<f32> };\nstruct KHost { inner: KInner, z: vec4<f32> };\n", "var<uniform> k_host: KHost;", false),
+        ];
+        for (kind, decls, var, rts) in kinds {
+            let binding = if var == "WORKGROUP" { "var<workgroup> k_host: KHost;".to_string() } else { format!("@group(0) @binding(0) {var}") };
+            let src = format!("{decls}{binding}\nstruct KVertex {{ @location(0) a: vec4<f32>, @location(1) b: vec2<u32> }};\n@vertex fn vs_main(v: KVertex) -> @builtin(position) vec4<f32> {{\n    return v.a;\n}}\n@compute @workgroup_size(2, 3) fn cs_main() {{\n    _ = &k_host;\n}}\n");
+            let mut structs = vec![RoleStruct { name: "KHost", host: true, rts }, RoleStruct { name: "KVertex", host: false, rts: false }];
+            if decls.contains("struct KInner") {
+                structs.push(RoleStruct { name: "KInner", host: true, rts: false });
+            }
+            if decls.contains("struct KLeaf") {
+                structs.push(RoleStruct { name: "KLeaf", host: true, rts: false });
+            }
+            out.push(Prog { key: format!("roles=member-kinds-{kind}"), src, structs });
+        }
+    }
     // entry-input structs made only of builtins (no field survives): the derive switches apply to them like to any struct
     {
         let src = "struct VBuiltins { @builtin(vertex_index) vi: u32, @builtin(instance_index) ii: u32 };\nstruct FBuiltins { @builtin(position) fpos: vec4<f32>, @builtin(front_facing) ff: bool };\nstruct CBuiltins { @builtin(global_invocation_id) gid: vec3<u32>, @builtin(local_invocation_index) li: u32 };\nstruct HostToo { k: vec4<f32> };\n@group(0) @binding(0) var<uniform> host_too: HostToo;\n@vertex fn vs_main(v: VBuiltins) -> @builtin(position) vec4<f32> {\n    return host_too.k;\n}\n@fragment fn fs_main(f: FBuiltins) -> @location(0) vec4<f32> {\n    return vec4<f32>(1.0);\n}\n@compute @workgroup_size(2, 3) fn cs_main(c: CBuiltins) {\n}\n".to_string();
@@ -233,12 +259,26 @@ pub fn run(tier: &str) -> i32 {
     let mut progs = programs();
     if !thorough {
         // quick: every single component and the full set, plus runtime-array variants
-        progs.retain(|p| p.key.len() <= "roles=XX".len() || p.key.contains("VHBFNW") || p.key.contains('R') || p.key.contains("nested-both") || p.key.contains("matrix-members") || p.key.contains("builtin-only") || p.key.contains("stage-mix"));
+        progs.retain(|p| p.key.len() <= "roles=XX".len() || p.key.contains("VHBFNW") || p.key.contains('R') || p.key.contains("nested-both") || p.key.contains("matrix-members") || p.key.contains("builtin-only") || p.key.contains("stage-mix") || p.key.contains("member-kinds"));
         let _ = 0;
     }
     let configs = all_configs_192();
     let items: Vec<(usize, usize)> = (0..progs.len()).flat_map(|p| (0..configs.len()).map(move |c| (p, c))).collect();
-    let outs = par_map(&items, |(p, c)| generate(&progs[*p].src, &configs[*c]));
+    // quick: the formatter-on half of the configurations only for the single-component programs and the full set
+    let fmt_too = |key: &str| thorough || key.len() <= "roles=XX".len() || key.contains("VHBFNW") || key.contains("member-kinds") || key.contains("stage-mix") || key.contains("builtin-only");
+    let outs = par_map(&items, |(p, c)| {
+        if configs[*c].rustfmt && !fmt_too(&progs[*p].key) {
+            return None;
+        }
+        let o = generate(&progs[*p].src, &configs[*c]);
+        // the output is read here (in parallel); the verdicts are drawn below
+        let user: Vec<&str> = progs[*p].structs.iter().map(|s| s.name).collect();
+        let sp = match &o {
+            Outcome::Ok(t) => Some(split(t, &user)),
+            _ => None,
+        };
+        Some((o, sp))
+    });
     // per program: reference = the first Ok configuration's `rest`
     let mut texts: BTreeMap<(usize, usize), String> = BTreeMap::new();
     for (pi, p) in progs.iter().enumerate() {
@@ -253,7 +293,10 @@ pub fn run(tier: &str) -> i32 {
             rep.transitions += 1;
             rep.evaluations += 1;
             let case = format!("{}|{}", p.key, c.key());
-            let out = &outs[pi * configs.len() + ci];
+            let (out, pre_split) = match &outs[pi * configs.len() + ci] {
+                Some((o, sp)) => (o, sp),
+                None => continue,
+            };
             let text = match out {
                 Outcome::Ok(t) => t,
                 // documented rejections: a struct ending in a runtime-sized array needs encase and cannot take the bytemuck
@@ -272,7 +315,7 @@ pub fn run(tier: &str) -> i32 {
             };
             texts.insert((pi, ci), text.clone());
             let detail = |obs: String| json!({"wgsl": p.src, "config": c.key(), "observed": obs});
-            let sp = match split(text, &user) {
+            let sp = match pre_split.as_ref().unwrap_or_else(|| machinery("C09: output not read")) {
                 Ok(s) => s,
                 Err(e) => {
                     rep.violation(case, format!("output not readable: {e}"), detail(e.clone()));
@@ -331,6 +374,7 @@ pub fn run(tier: &str) -> i32 {
             }
         }
     }
+    if std::env::var("VERIF_TIMING").is_ok() { eprintln!("C09 timing: model phase done at {:.1}s", rep.start.elapsed().as_secs_f64()); }
     // ---- compiled subset: trait-implementation probes
     let mut cases = vec![];
     let mut index: BTreeMap<String, (usize, usize)> = BTreeMap::new();
@@ -363,6 +407,7 @@ pub fn run(tier: &str) -> i32 {
         }
     }
     let results = probe::run_batch("C09", &cases, true);
+    if std::env::var("VERIF_TIMING").is_ok() { eprintln!("C09 timing: probes done at {:.1}s", rep.start.elapsed().as_secs_f64()); }
     for cr in &results {
         let (pi, ci) = index[&cr.name];
         let (p, c) = (&progs[pi], &configs[ci]);
